@@ -101,6 +101,27 @@ pub fn exec_op(op: &Value) -> Value {
                 }
                 Ok(v)
             }
+            "convert_dir_copy" => {
+                // the same project, copied to another place under another directory name
+                let src = std::path::Path::new(&crate::panics::repo_root()).join(op["project"].as_str().unwrap_or(""));
+                let base = std::env::temp_dir();
+                let base = if std::path::Path::new("/dev/shm").is_dir() { std::path::PathBuf::from("/dev/shm") } else { base };
+                let dst = base.join(format!("ctesim.copy.{}", std::process::id())).join(op["copy_name"].as_str().unwrap_or("copia"));
+                let _ = std::fs::remove_dir_all(&dst);
+                std::fs::create_dir_all(&dst).map_err(|e| e.to_string())?;
+                for f in std::fs::read_dir(&src).map_err(|e| e.to_string())? {
+                    let f = f.map_err(|e| e.to_string())?.path();
+                    if f.is_file() {
+                        std::fs::copy(&f, dst.join(f.file_name().unwrap())).map_err(|e| e.to_string())?;
+                    }
+                }
+                let extra = op["extra"].as_bool().unwrap_or(false);
+                let r = hulc2model::collect_hulc_data(dst.to_string_lossy().as_ref(), extra, extra);
+                let _ = std::fs::remove_dir_all(dst.parent().unwrap());
+                let m = r.map_err(|e| e.to_string())?;
+                let js = m.as_json().map_err(|e| e.to_string())?;
+                Ok(json!({"hash": md5hex(js.as_bytes()), "len": js.len()}))
+            }
             "convert_text" => {
                 let (k, text) = disk::text_of(op["file"].as_str().unwrap_or(""));
                 let m = convert_any(k, &text).map_err(|e| e.to_string())?;
